@@ -6,7 +6,7 @@ cd /repo || exit 2
 if [ -n "$(git status --porcelain --untracked-files=no)" ]; then echo "/repo is dirty"; exit 2; fi
 git apply "$PATCH" || { echo "patch does not apply"; exit 2; }
 # restore /repo and rebuild the harness from the restored tree, so that no binary built from a seeded tree is left behind
-trap 'git -C /repo checkout -- . ; (cd /verif/harness && cargo build --release >/dev/null 2>&1)' EXIT
+trap 'git -C /repo checkout -- . ; git -C /verif checkout -- evidence ; (cd /verif/harness && cargo build --release >/dev/null 2>&1)' EXIT
 cd /verif
 for c in "$@"; do
   START=$(date +%s)
